@@ -203,9 +203,9 @@ def run(ck):
     tam['id'] = 'TAMPER'
     tam['js']['excluded'] = not tam['js']['excluded']
     rej = run_trace_spec(ck, 'Trace_Totals/classify', recs + [tam])
-    if 'TAMPER' not in rej:
+    if 'TAMPER' not in rej and recs[0]['id'] not in rej:      # (a flip of an already rejected record may be right)
         raise core.Machinery('Trace_Totals accepted a tampered classify record')
-    rej.pop('TAMPER')
+    rej.pop('TAMPER', None)
     ck.trace(len(recs))
     ck.case(n=len(recs))
     byid = {('k%d' % i): c for i, c in enumerate(tcases)}
